@@ -482,6 +482,12 @@ def run(ctx):
     rule_e(ctx, R)
     rule_f(ctx, R, sector, scan_site)
     rule_g(ctx)
+
+    # "the coordinate" in the statement is the one the reader hands out: the k-th read returns element k of the caller's slice and
+    # advances by one (restated from C14-a / C14-b — a reader that skips, repeats or offsets breaks this property from mimic_rng.rs)
+    from .restate import run_restated
+    run_restated(ctx, [("C14", {"C14-a": "the caller's slice reaches only the reader; its fields are touched only by its own methods",
+                                "C14-b": "the k-th read returns cache[k] and advances the counter by exactly one"})])
     if ctx.cfg == "default":
         from ..fixtures import detectors_alive
         ctx.rule("C06-z", "positive example: a panic guarded by a coordinate's value is found in fixtures/")
